@@ -150,6 +150,27 @@ def gen_cmds(rng, prog, model, n_iter, stops=()):
                   'slot': rng.randint(0, 1),
                   'incarnation': rng.choice([0, 0, 1, 2])})
         cmds.append(c)
+    r2 = random.Random(repr(rng.getstate()[1][:4]))   # (separate stream)
+    if not stops and r2.random() < 0.7:
+        # a finished task is run again in flow 2, then flow 1 reaches it
+        # once more from a re-triggered parent: it completed in flow 1 and
+        # must not run there again
+        pairs = []
+        for t, p in valid:
+            for e in model.prereq_exprs(t, p):
+                for a in model.conc_atoms(e):
+                    if (a[0], a[1]) in valid and (a[0], a[1]) != (t, p):
+                        pairs.append(((a[0], a[1]), (t, p)))
+        if pairs:
+            par, kid = pairs[r2.randrange(len(pairs))]
+            it1 = max(2, int(n_iter * r2.uniform(0.4, 1.0)))
+            it2 = it1 + r2.randint(4, 14)
+            cmds.append({'name': 'force_trigger_tasks', 'iter': it1,
+                         'slot': 0, 'incarnation': 0, 'kwargs': {
+                             'tasks': [prog.iid(*kid)], 'flow': ['2']}})
+            cmds.append({'name': 'force_trigger_tasks', 'iter': it2,
+                         'slot': 0, 'incarnation': 0, 'kwargs': {
+                             'tasks': [prog.iid(*par)], 'flow': ['1']}})
     if stops:
         # make sure a new flow is started before and after the first restart
         # (and that it has finished or not by then, as the schedule decides)
